@@ -197,6 +197,15 @@ def _sequences(tier, floaty):
         out.append([dict(doc=a, cdt=4, tokens=seq(a, 2)), dict(doc=b, cdt="inherit", tokens=seq(b, 3))])
         out.append([dict(doc=a, cdt=0, tokens=seq(a, 1)), dict(doc=b, cdt="inherit", tokens=seq(b, 0)), dict(doc=a, cdt="inherit", tokens=seq(a, 2))])
         out.append([dict(doc=a, cdt=2, tokens=[]), dict(doc=a + "_NCDT", tokens=seq(a, 2)), dict(doc=b, cdt=3, tokens=seq(b, 2))])
+    # two documents of DIFFERENT kinds in one buffer, in both orders: every document id meets a request, a report and an
+    # answer document (whatever the library remembers per document kind must not carry over to the next document)
+    reps = ["LRRP_ImmediateLocationRequest_NCDT", "LRRP_LocationProtocolRequest_NCDT", "LRRP_ImmediateLocationReport_NCDT", "LRRP_LocationProtocolReport_NCDT", "LRRP_TriggeredLocationAnswer_NCDT"]
+    for a in alld:
+        for b in reps:
+            if a != b:
+                out.append([dict(doc=a, cdt=0, tokens=seq(a, 2)), dict(doc=b, cdt=0, tokens=seq(b, 3))])
+                if tier != "quick" or (len(out) % 3 == 0):
+                    out.append([dict(doc=b, cdt=1, tokens=seq(b, 3)), dict(doc=a, cdt=0, tokens=seq(a, 2))])
     for i in range(40 if tier == "quick" else 1500):
         nd = r.choice([1, 1, 2, 3])
         ds = []
